@@ -264,17 +264,24 @@ S_LOC_TYPES = [*S_TYPES, "NoneType"]
 S_IDS = ["a", "b", "a_b", "ab", "aa", "A", "_a", "b_a_b", "a1"]
 S_STRS = ["a", "b", "a_b", "ab", "a|b", ".*_b", "a.", "(a|b)", "[ab]+", "a?b", ".*", "", "a.*", "_?a", "a|a_b",
           "A", "a1", r"a\d", ".", "..", "a{2}", "aa", "_a"]
-S_ATOMS = [tup(Tn(t)) for t in S_TYPES] + [tup(Sn(s)) for s in S_STRS] + [("ANY",)]
 
-_true_cache = {}
+
+class Pool(list):
+    """A list of atoms with its own 'which atoms match this location' cache."""
+
+    def __init__(self, items):
+        super().__init__(items)
+        self.cache = {}
+
+
+S_ATOMS = Pool([tup(Tn(t)) for t in S_TYPES] + [tup(Sn(s)) for s in S_STRS] + [("ANY",)])
 
 
 def atoms_true(loc_t, pool):
     """Atoms of the pool the reference says match the location (used to AIM generated predicates)."""
-    key = (loc_t, id(pool))
-    if key not in _true_cache:
-        _true_cache[key] = [a for a in pool if H.ref_atom(a, loc_t) is True]
-    return _true_cache[key]
+    if loc_t not in pool.cache:
+        pool.cache[loc_t] = [a for a in pool if H.ref_atom(a, loc_t) is True]
+    return pool.cache[loc_t]
 
 
 @st.composite
@@ -475,7 +482,7 @@ def e2e_atom_pool(models):
     for name in ("A", "B", "SubA", "Abs", "Impl", "Proto", "ProtoImpl", "Root", "int", "str", "list", "List", "dict"):
         if name not in types:
             types.append(name)
-    return [("T", t) for t in types] + [("S", s) for s in E2E_STRS] + [("ANY",)]
+    return Pool([("T", t) for t in types] + [("S", s) for s in E2E_STRS] + [("ANY",)])
 
 
 @st.composite
